@@ -267,6 +267,72 @@ def classify_lg(case):
     return fails, info
 
 
+def kalman_ref(Y, m0, P0, A, Q, C, R):
+    """float64 Kalman filter + RTS smoother (independent of genjax; checked against dense conditioning on a prefix).
+    Convention of the library: x_0 ~ N(m0, P0), x_t = A x_{t-1} + N(0, Q), y_t = C x_t + N(0, R)."""
+    T = len(Y)
+    fm, fc, pm, pc, lm = [], [], [], [], 0.0
+    m, P = m0, P0
+    for t in range(T):
+        if t:
+            m, P = A @ m, A @ P @ A.T + Q
+        pm.append(m)
+        pc.append(P)
+        S = C @ P @ C.T + R
+        v = Y[t] - C @ m
+        lm += float(ss.multivariate_normal.logpdf(v, np.zeros(len(v)), S))
+        K = P @ C.T @ np.linalg.inv(S)
+        m, P = m + K @ v, P - K @ S @ K.T
+        fm.append(m)
+        fc.append(P)
+    sm, sc = [None] * T, [None] * T
+    sm[-1], sc[-1] = fm[-1], fc[-1]
+    for t in range(T - 2, -1, -1):
+        G = fc[t] @ A.T @ np.linalg.inv(pc[t + 1])
+        sm[t] = fm[t] + G @ (sm[t + 1] - pm[t + 1])
+        sc[t] = fc[t] + G @ (sc[t + 1] - pc[t + 1]) @ G.T
+    return np.array(fm), np.array(fc), np.array(sm), np.array(sc), lm
+
+
+def classify_lg_long(case):
+    import jax.numpy as jnp
+    from genjax.extras import state_space as S
+
+    f32 = lambda x: np.asarray(x, dtype=np.float32)  # noqa: E731
+    m0, P0, A, Q, Cm, R, Y = (f32(case[k]) for k in ("m0", "P0", "A", "Q", "C", "R", "Y"))
+    T, do = Y.shape
+    ds = len(m0)
+    cls = "long"
+    fails, info = [], {"model": "lg_long", "d_state": ds, "d_obs": do, "T": T}
+    d = [x.astype(np.float64) for x in (m0, P0, A, Q, Cm, R)]
+    Y64 = Y.astype(np.float64)
+    rfm, rfc, rsm, rsc, rlm = kalman_ref(Y64, *d)
+    # the reference agrees with dense conditioning of the joint Gaussian on a short prefix
+    Tp = 4
+    mean_x, mean_y, Sxx, Syy, Sxy = lg_joint(*d, Tp)
+    pf, _, _, _, plm = kalman_ref(Y64[:Tp], *d)
+    mm, _ = condition(mean_x, mean_y, Sxx, Syy, Sxy, Y64[:Tp].ravel(), list(range((Tp - 1) * ds, Tp * ds)), list(range(Tp * do)))
+    if not np.allclose(pf[-1], mm, atol=1e-8) or abs(plm - float(ss.multivariate_normal.logpdf(Y64[:Tp].ravel(), mean_y, Syy))) > 1e-8:
+        raise RuntimeError("C20 harness: reference Kalman recursion disagrees with dense conditioning")
+    args = [jnp.asarray(x) for x in (Y, m0, P0, A, Q, Cm, R)]
+    try:
+        fm, fc, lm = impl(S.kalman_filter, *args)
+        sm, sc = impl(S.kalman_smoother, *args)
+    except ImplError as e:
+        return [(f"lg.raises:{e.sig()}:{cls}", str(e))], info
+    fm, fc, sm, sc, lm = (np.asarray(x, dtype=np.float64) for x in (fm, fc, sm, sc, lm))
+    sm_scale = 1.0 + np.abs(rfm).max() + np.abs(Y64).max()
+    sc_scale = 1.0 + np.abs(rfc).max()
+    for name, got, want, scale in (("filter_mean", fm, rfm, sm_scale), ("filter_cov", fc, rfc, sc_scale), ("smoother_mean", sm, rsm, sm_scale), ("smoother_cov", sc, rsc, sc_scale)):
+        if got.shape != want.shape or not np.all(np.isfinite(got)) or not np.all(np.abs(got - want) <= 4e-3 * scale + 4e-3 * np.abs(want)):
+            t = int(np.argmax(np.max(np.abs(np.nan_to_num(got, nan=1e9) - want).reshape(T, -1), axis=1))) if got.shape == want.shape else -1
+            fails.append((f"lg.{name}:{cls}", f"T={T}: {name} at t={t}: {got[t].tolist() if t >= 0 else got.shape} != float64 Kalman recursion {want[t].tolist() if t >= 0 else want.shape}"))
+            break
+    if not abs(float(lm) - rlm) <= 5e-3 * T ** 0.5 + 3e-4 * abs(rlm):
+        fails.append((f"lg.log_marginal:{cls}", f"T={T}: kalman_filter log marginal {float(lm)} != float64 recursion {rlm}"))
+    return fails, info
+
+
 # ----------------------------------------------------------------------------- strategies
 def cases():
     from hypothesis import strategies as st
@@ -341,7 +407,25 @@ def cases():
         case["Y"] = Y.round(3).tolist()
         return case
 
-    return st.one_of(hmm(), hmm(), lg(), lg(), hmm_long())
+    @st.composite
+    def lg_long(draw):
+        ds, do, T = draw(st.integers(1, 3)), draw(st.integers(1, 3)), draw(st.sampled_from([40, 120]))
+        # a contraction, so that the state does not explode over a long horizon
+        A = (0.9 * np.linalg.qr(np.array([[draw(e) for _ in range(ds)] for _ in range(ds)]) + np.eye(ds))[0]).round(3).tolist()
+        Cm = [[draw(e) for _ in range(ds)] for _ in range(do)]
+        key = draw(st.integers(0, 2**30))
+        case = {"kind": "lg_long", "m0": [draw(e) for _ in range(ds)], "P0": spd(draw, ds), "A": A, "Q": spd(draw, ds), "C": Cm, "R": spd(draw, do), "key": key}
+        rng = np.random.default_rng(key)
+        m0, P0, A_, Q, C_, R = (np.asarray(case[k], dtype=np.float64) for k in ("m0", "P0", "A", "Q", "C", "R"))
+        x, Y = rng.multivariate_normal(m0, P0), []
+        for t in range(T):
+            if t:
+                x = A_ @ x + rng.multivariate_normal(np.zeros(ds), Q)
+            Y.append((C_ @ x + rng.multivariate_normal(np.zeros(do), R)).round(3).tolist())
+        case["Y"] = Y
+        return case
+
+    return st.one_of(hmm(), hmm(), lg(), lg(), hmm_long(), lg_long())
 
 
 def run_shard(ctx):
@@ -355,6 +439,10 @@ def run_shard(ctx):
             fails, info = classify_hmm(case, ctx, P["n1"] if cnt[0] % P["stat_every"] == 0 else 0)
             nt = info["T"] >= 2 and (info["sparse"] or info["K"] != info["M"])
             cls = ["C20.hmm", f"C20.hmm_{'sparse' if info['sparse'] else 'dense'}", f"C20.hmm_T{'1' if info['T'] == 1 else '>1'}"]
+        elif case["kind"] == "lg_long":
+            fails, info = classify_lg_long(case)
+            nt = True
+            cls = ["C20.lg_long"]
         elif case["kind"] == "hmm_long":
             fails, info = classify_hmm_long(case)
             nt = True
@@ -373,4 +461,6 @@ def run_shard(ctx):
 def replay(case):
     if case["kind"] == "hmm_long":
         return classify_hmm_long(case)[0]
+    if case["kind"] == "lg_long":
+        return classify_lg_long(case)[0]
     return (classify_hmm(case, None, 4000) if case["kind"] == "hmm" else classify_lg(case))[0]
